@@ -25,7 +25,19 @@ from checks.C08 import STDS
 
 PID = "C15"
 TOL = Fraction(1, 10 ** 8)
-NAN_NAMES = {"ur_drift": {"l", "ol"}}
+NAN_NAMES = {"ur_drift": {"l", "ol"}, "ar_rw": {"rw", "obs_rw", "obs_c"}}
+
+# a stationary variable declared BEFORE a random walk; measurements of the stationary one, of the random walk and of their sum:
+# which measurement variables are loaded on the unit root is not readable from the leading columns of Z
+AR_RW = zoo.ZModel(
+    "ar_rw", ("x", "rw"), ("ex", "er"),
+    ("x = 0.5*x[-1] + ex", "rw = rw[-1] + er"), dict(),
+    mvars=("obs_x", "obs_rw", "obs_c"), mshocks=("w",), meqs=("obs_x = x + w", "obs_rw = rw", "obs_c = x + rw"),
+    tags=("unit_root", "measurement", "backward"), forward=0, unit_roots=1)
+
+
+def _zm(name):
+    return AR_RW if name == "ar_rw" else zoo.by_name(name)
 
 
 def _diag(v):
@@ -312,8 +324,8 @@ def main(run):
                         "per zoo model from the model's own structure (ur_drift: l and its observation ol)"]
     run.outside += ["models outside the zoo", "multiple variants", "the value of the finite block of unit-root models beyond NaN pattern, selection and homogeneity"]
     order = 1 if run.tier == "quick" else 2
-    for name in ("nk3", "ar2m", "pc_const", "ur_drift") + (("lead2",) if run.tier == "thorough" else ()):
-        zm = zoo.by_name(name)
+    for name in ("nk3", "ar2m", "pc_const", "ur_drift", "ar_rw") + (("lead2",) if run.tier == "thorough" else ()):
+        zm = _zm(name)
         if name not in STDS:
             STDS[name] = {}
         try:
@@ -327,7 +339,7 @@ def main(run):
 
 def replay(case):
     ir = load_irispie()
-    zm = zoo.by_name(case["model"])
+    zm = _zm(case["model"])
     order = case["order"]
     vals = {k: float(Fraction(a, b)) for k, (a, b) in case.get("values", {}).items()}
     stds = {}
